@@ -4,6 +4,13 @@ use chrono::{DateTime, Duration, NaiveDateTime, Utc};
 /// current time in milliseconds since unix epoch
 ///
 pub fn now() -> i64 {
+    #[cfg(feature = "verif")]
+    {
+        let t = verif_clock::read();
+        if t != 0 {
+            return t;
+        }
+    }
     let dt = Utc::now();
     dt.timestamp_millis()
 }
@@ -21,4 +28,31 @@ pub fn date_next_day(date_time: i64) -> i64 {
     let date = date + Duration::days(1);
     let ds: NaiveDateTime = date.date_naive().and_hms_opt(0, 0, 0).unwrap();
     ds.and_utc().timestamp_millis()
+}
+
+///
+/// verification hook: logical clock override used by the external monitoring harness.
+/// 0 means "use the real clock". every read advances the clock by the configured step
+///
+#[cfg(feature = "verif")]
+pub mod verif_clock {
+    use std::sync::atomic::{AtomicI64, Ordering};
+    static CLOCK: AtomicI64 = AtomicI64::new(0);
+    static STEP: AtomicI64 = AtomicI64::new(0);
+
+    pub fn set(time_ms: i64) {
+        CLOCK.store(time_ms, Ordering::SeqCst);
+    }
+    pub fn set_step(step_ms: i64) {
+        STEP.store(step_ms, Ordering::SeqCst);
+    }
+    pub fn get() -> i64 {
+        CLOCK.load(Ordering::SeqCst)
+    }
+    pub fn read() -> i64 {
+        if CLOCK.load(Ordering::SeqCst) == 0 {
+            return 0;
+        }
+        CLOCK.fetch_add(STEP.load(Ordering::SeqCst), Ordering::SeqCst)
+    }
 }
